@@ -521,7 +521,7 @@ def list_reductions(xs, min_len=0):
 
 
 def write_replay(prop, seed, scenario, result, extra=None):
-    d = os.path.join(VERIF, "replays")
+    d = os.environ.get("NSLSIM_REPLAY_DIR") or os.path.join(VERIF, "replays")
     os.makedirs(d, exist_ok=True)
     path = os.path.join(d, f"{prop}-{seed}.json")
     doc = {
